@@ -19,7 +19,7 @@ Definition corr (th : bthread) : Z :=
   | Some (BAlloc g s, 2%nat) => s
   | Some (BAllocPre g s, 3%nat) => s
   | Some (BResize g n, 3%nat) => n - slot_size (t_loc th) g
-  | Some (BResize g n, 5%nat) => - (slot_size (t_loc th) g - n)
+  | Some (BResize g n, 4%nat) => - (slot_size (t_loc th) g - n)
   | Some (BRelease g, 1%nat) => - slot_size (t_loc th) g
   | _ => 0
   end.
@@ -119,14 +119,13 @@ Proof.
     + bcrunch; bfin AD.
     + bcrunch. bfin AD.
     + destruct pc; simpl in H; bcrunch; bfin AD.
-  - destruct pc as [|[|[|[|[|[|pc]]]]]]; simpl in H.
+  - destruct pc as [|[|[|[|[|pc]]]]]; simpl in H.
     + destruct (slot_used tl g); simpl in H; [|bcrunch; bfin AD].
       destruct (n >? slot_size tl g); [destruct (b_alloc s + (n - slot_size tl g) >? b_hard s); bcrunch; bfin AD|].
       destruct (n <? slot_size tl g); bcrunch; bfin AD.
     + destruct (b_alloc s + (n - slot_size tl g) >? b_hard s); bcrunch; bfin AD.
     + bcrunch; bfin AD.
     + bcrunch. bfin AD.
-    + bcrunch; bfin AD.
     + bcrunch. bfin AD.
     + destruct pc; simpl in H; bcrunch; bfin AD.
   - destruct pc as [|[|pc]]; simpl in H.
